@@ -358,7 +358,10 @@ pub fn judge_responses(frames: &[SFrame], limit: u32, out: &[u8], closed: bool, 
         let r = wire::parse_resp(&resps[ri]).ok();
         let after_quit = frames.iter().any(|f| matches!(f.kind, Kind::Quit | Kind::QuitQ));
         let faulty = frames.iter().any(|f| matches!(f.kind, Kind::BadHeader | Kind::Truncated));
-        let props: Vec<&'static str> = if after_quit { vec!["C12"] } else if faulty { vec!["C18", "C10", "C12"] } else { vec!["C12", "C10"] };
+        let nonstd = frames.iter().any(|f| matches!(f.kind, Kind::NonStd));
+        // bytes of a non-standard frame's body answered as requests of their own: the frame was not taken from exactly
+        // the 24 + body-length bytes its header announces (C09)
+        let props: Vec<&'static str> = if after_quit { vec!["C12"] } else if faulty { vec!["C18", "C10", "C12"] } else if nonstd { vec!["C09", "C12", "C10"] } else { vec!["C12", "C10"] };
         v.push((props, format!("{} response(s) beyond what the request stream calls for, first: {:?}", resps.len() - ri, r.map(|r| (r.opcode, r.opaque, r.status)))));
     }
     let must_close = frames.iter().any(|f| matches!(f.kind, Kind::Quit | Kind::QuitQ | Kind::BadHeader));
